@@ -287,6 +287,10 @@ func (v *VStruct) exist(isValidTvKind bool, structName, fieldName, cusMsg string
 		if tv.Type() == timeReflectType {
 			return
 		}
+		// 指向非结构体的指针(如: *string)不需要嵌套验证
+		if !isValidTvKind && RemoveTypePtr(tv.Type()).Kind() != reflect.Struct {
+			return
+		}
 		v.validate(structName+"."+fieldName, tv, false)
 	case reflect.Slice, reflect.Array:
 		for i := 0; i < tv.Len(); i++ {
